@@ -20,6 +20,21 @@ def tname(t):
     return INT_NAMES.get(t, t)
 
 
+def bytes_like(f, fam, depth=0):
+    """f takes the bytes to hash: (const void*, size), or a (pointer, size) overload that only forwards both to such a function"""
+    if tname(f["params"][0]["t"]) == "bytes":
+        return True
+    if depth > 2 or len(f["params"]) < 2 or not (f["params"][0]["t"] or "").rstrip().endswith("*") or f.get("body") is None:
+        return False
+    st = stmts_of(f["body"])
+    if len(st) != 1 or st[0].get("k") not in ("Expr", "Return"):
+        return False
+    c = strip_all(st[0].get("e") or {})
+    if c.get("k") != "Call" or c.get("cpat") not in fam or len(c.get("args", [])) < 2:
+        return False
+    return strip_all(c["args"][0]).get("d") == f["params"][0].get("d") and strip_all(c["args"][1]).get("d") == f["params"][1].get("d") and bytes_like(fam[c["cpat"]], fam, depth + 1)
+
+
 def step_of(fn, fam):
     """one step of the chain of overload fn: ('delegate', [types...], next_fn_pat) | ('hash', type, nbytes) | ('canonical',) | ('opaque', text)"""
     p0 = fn["params"][0]
@@ -27,7 +42,7 @@ def step_of(fn, fam):
     # look for the (single) call that consumes the parameter
     calls = []
     walk(fn["body"], lambda n: calls.append(n) if n.get("k") == "Call" else None)
-    same = [c for c in calls if c.get("cname") == fn["name"] and c.get("cpat") in fam]
+    same = [c for c in calls if c.get("cpat") in fam and (c.get("cname") == fn["name"] or fam[c["cpat"]].get("_sink"))]
     guards = []
     walk(fn["body"], lambda n: guards.append(txt(n["c"])) if n.get("k") == "If" else None)
     if same:
@@ -36,7 +51,7 @@ def step_of(fn, fam):
         # terminal: (&x, sizeof x) / (s.c_str(), s.length())
         nxt = fam[c["cpat"]]
         a0 = strip_all(a)
-        if tname(nxt["params"][0]["t"]) == "bytes":
+        if bytes_like(nxt, fam):
             if a0.get("k") == "Un" and a0.get("op") == "&":
                 src = strip(a0["e"])
                 n = strip(c["args"][1]).get("v") if len(c["args"]) > 1 else None
@@ -120,9 +135,19 @@ def family_chains(fns, rect, name="update"):
     by_type = {}
     for p, f in fam.items():
         by_type.setdefault(tname(f["params"][0]["t"]), f)
+    # private helpers that hash exactly the (pointer, length) pair they are handed stand for the bytes overload
+    fam = dict(fam)
+    for p, f in fns.items():
+        if f.get("rect") == rect and f["name"] != name and len(f.get("params") or []) >= 2 and f.get("body") is not None and tname(f["params"][0]["t"]) == "bytes" and p not in fam:
+            hs = []
+            walk(f["body"], lambda n: hs.append(n) if n.get("k") == "Call" and n.get("cname") in ("hash", "MurmurHash3_x64_128", "compute_hash") and len(n.get("args", [])) >= 2 else None)
+            if len(hs) == 1 and strip_all(hs[0]["args"][0]).get("d") == f["params"][0].get("d") and strip_all(hs[0]["args"][1]).get("d") == f["params"][1].get("d") and f["params"][0].get("d") is not None:
+                g = dict(f)
+                g["_sink"] = True
+                fam[p] = g
     res = {}
     for t, f in by_type.items():
-        if t in ("bytes",):
+        if t in ("bytes",) or (t.endswith("*") and bytes_like(f, fam)):
             continue
         chain = [t]
         cur = f
